@@ -486,8 +486,14 @@ class _Graph:
             ns["MID"] = ns["Mid"]()
         ns[f"R{n}"] = type(f"R{n}", (), {"__module__": "vfworld"})
         ov = self.nodes[n]
-        ov.register(self.make_fn(f"leaf{n}", f"def leaf{n}(x: Leaf):\n    return {n}\n"))
-        ov.register(self.make_fn(f"rec{n}", f"def rec{n}(x: R{n}):\n    return recurse(MID)\n"))
+        # every function of the graph is called `f` (the usual `@f.variant def f(...)` idiom): per-function state
+        # keyed by name would collide
+        ov.register(self.make_fn("f", f"def f(x: Leaf):\n    return {n}\n"))
+        if n % 2:
+            ov.register(self.make_fn(f"rec{n}", f"def rec{n}(x: R{n}):\n    return recurse(MID)\n"))
+        else:
+            # recurse used as a value / with starred arguments
+            ov.register(self.make_fn(f"rec{n}", f"def rec{n}(x: R{n}):\n    return list(map(recurse, [MID]))[0] if x else recurse(*[MID])\n"))
         if root:
             ov.register(self.make_fn(f"mid{n}", f"def mid{n}(x: Mid):\n    return recurse(LEAF)\n"))
         # a recursion into the most specific K class: must walk the very chain a direct call walks
@@ -836,6 +842,12 @@ def typearg_cases(jobs):
                 else:
                     ann = f"type[E{n}]"
                 params.append(f"p{i + 1}: {ann}")
+            if m["kwn"]:
+                params.append("*")
+            for kn, t, req in zip(m["kwn"], m["kwt"], m["kwreq"]):
+                n = t["c"]
+                ann = "object" if n == 1 else (f"E{n}" if els[n - 1]["k"] == "inst" else f"type[E{n}]")
+                params.append(f"{kn}: {ann}" + ("" if req else " = None"))
             src.append(f"def {m['id']}({', '.join(params)}):\n    LOG.append({m['id']!r})\n    return {m['id']!r}\n")
         code = "\n".join(src)
         fname = f"<vf:ta{job['id']}>"
@@ -857,10 +869,14 @@ def typearg_cases(jobs):
                     args.append(objs[n]())
                 else:
                     args.append(objs[n])
+            kwargs = {}
+            for kn, a in zip(call["kwn"], call["kwa"]):
+                n = a["c"]
+                kwargs[kn] = typing.Any if a.get("any") else (object() if n == 1 else (objs[n]() if els[n - 1]["k"] == "inst" else objs[n]))
             del ns["LOG"][:]
             obs = {"resolve": {"kind": "skip", "m": ""}}
             try:
-                ov(*args)
+                ov(*args, **kwargs)
                 obs["kind"] = "run"
             except BaseException as e:  # noqa
                 obs["kind"] = classify(e)
@@ -1332,7 +1348,11 @@ def recode_cases(jobs):
                 log.append(f"L{i}")
                 raise Boom(i)
 
-            ns = {"LOG": log, "DEPTH": depth, "ev": ev, "boom": boom, "__name__": "vfprog"}
+            def sv(i):
+                log.append(f"L{i}")
+                return f"s{i}"
+
+            ns = {"LOG": log, "DEPTH": depth, "ev": ev, "boom": boom, "sv": sv, "__name__": "vfprog"}
             fname = f"<vf:prog{job['id']}-{int(registered)}>"
             linecache.cache[fname] = (len(src), None, src.splitlines(True), fname)
             res = {"ev": [], "val": 0, "err": 0, "built": "ok", "tb": "none", "lines": []}
@@ -1358,9 +1378,13 @@ def recode_cases(jobs):
                     holder = {}
 
                     def o_recurse(x, *, k=0):
+                        if not isinstance(x, int):
+                            raise TypeError("No method (oracle)")
                         return holder["top"](x, k=k) if host is None else holder["top"](host, x, k=k)
 
                     def o_next(x, *, k=0):
+                        if not isinstance(x, int):
+                            raise TypeError("No method (oracle)")
                         return ns["m_next"](x, k=k) if host is None else ns["m_next"](host, x, k=k)
 
                     ns["recurse"] = o_recurse
@@ -1381,8 +1405,13 @@ def recode_cases(jobs):
                 if wrapper == "generator":
                     v = next(v)
                 res["val"] = int(v)
-            except Boom as e:
-                res["err"] = e.i
+            except (Boom, TypeError) as e:
+                if isinstance(e, TypeError) and not str(e).startswith("No method"):
+                    res["built"] = f"run: TypeError: {str(e)[:120]}"
+                    res["ev"] = list(log)
+                    e.__traceback__ = None
+                    return res
+                res["err"] = e.i if isinstance(e, Boom) else 77
                 tb = e.__traceback__
                 lines = []
                 while tb is not None:
@@ -1399,6 +1428,10 @@ def recode_cases(jobs):
 
         u = run(False)
         r = run(True)
+        if r["err"] == 77 and (u["err"] != 77 or len(r["ev"]) < len(u["ev"])):
+            # the library could not dispatch a call the program's meaning dispatches: a refused placement
+            r["built"] = "run: TypeError: No method (call site could not be dispatched)"
+            r["err"] = 0
         if r["err"] and u["err"]:
             r["tb"] = "ok" if r["lines"] == u["lines"] and r["lines"] else "bad"
         for k in [k for k in linecache.cache if k.startswith("<ovld:") or k.startswith("<vf:")]:
